@@ -6,6 +6,7 @@ import SnowModel.Ops.OpCond
 import SnowModel.Ops.Simpson
 import SnowModel.Ops.Seeds
 import SnowModel.Ops.SnowingObj
+import SnowModel.Ops.Frames
 
 open Lean Snow
 
@@ -14,6 +15,7 @@ def allOps : List (String × Op) :=
   ++ Snow.Ops.simpsonOps
   ++ Snow.Ops.seedsOps
   ++ Snow.Ops.snowingObjOps
+  ++ Snow.Ops.framesOps
 
 def handle (line : String) : String :=
   match Json.parse line with
